@@ -108,7 +108,11 @@ def _build(d):
         return {'k': 'DATE', 'y': y, 'm': m, 'd': dd}
     if k == 3:
         return {'k': d.choice(['EDATE', 'EOMONTH']), 'n': _serial(d),
-                'months': d.int(-1200, 1200) if d.pick(3) else d.int(-13, 13)}
+                'months': d.int(-1200, 1200) if d.pick(3) else d.int(-13, 13),
+                # a month offset that is not whole is truncated (toward
+                # zero), whether literal, a percentage or a quotient
+                'frac': d.choice([0, 0, 0, 0.5, 0.25, 0.9]),
+                'how': d.choice(['call', 'literal', 'percent', 'quotient'])}
     if k == 4:
         n = d.int(61, 100000)
         return {'k': 'time', 'n': n, 'q': d.choice([0.5, 0.25, 0.75])}
@@ -263,7 +267,20 @@ def _edate_case(case, res):
     exp = RD.add_months(d, k) if fn == 'EDATE' else RD.eomonth(d, k)
     res.labels = (fn,)
     res.nontrivial = d.day >= 28 or abs(k) >= 12
-    o = lib.call_fn(fn, n, k)
+    frac = case.get('frac') or 0
+    if frac:
+        # k keeps its whole part: -3 -> -3.5 (truncates to -3)
+        kf = k + frac if k >= 0 else k - frac
+        how = case.get('how', 'call')
+        res.labels += ('fractional-offset:' + how,)
+        if how == 'call':
+            o = lib.call_fn(fn, n, kf)
+        else:
+            txt = {'literal': repr(kf), 'percent': '%r%%' % (kf * 100),
+                   'quotient': '(%r/4)' % (kf * 4)}[how]
+            o = lib.eval_formula('=%s(%d,%s)' % (fn, n, txt))[0]
+    else:
+        o = lib.call_fn(fn, n, k)
     if exp is None or exp < datetime.date(1900, 1, 1):
         if exp is not None and o[0] != 'E':
             res.fail('%s:missing-error' % fn, 'error', o, [n, k])
